@@ -118,6 +118,19 @@ def run(fast=False):
             print(f'selftest: harmless edit "{name}": {len(rep.obs)} obligations, {len(bad)} fail, error={rep.error}')
             if bad or rep.error:
                 ok = False
+        # CPython cross-check of the engine's reading of Python (pyvc/xcheck.py)
+        from pyvc import xcheck
+        xr = xcheck.run(per_fn=6 if fast else 40)
+        print(f'selftest: CPython cross-check: {xr["functions"]} functions, {xr["inputs"]} inputs, {xr["agreed"]} agree, '
+              f'{len(xr["mismatches"])} mismatches, {len(xr["skipped"])} functions outside the engine\'s subset')
+        for m_ in xr['mismatches'][:10]:
+            print('selftest:   mismatch', m_)
+        if xr['mismatches'] or xr['functions'] < 30:
+            ok = False
+        import json
+        os.makedirs(os.path.join(ROOT, 'out'), exist_ok=True)
+        with open(os.path.join(os.environ.get('VERIF_OUTDIR', os.path.join(ROOT, 'out')), 'xcheck.json'), 'w') as fh:
+            json.dump(xr, fh, indent=1)
     finally:
         solve.close()
         shutil.rmtree(scratch, ignore_errors=True)
